@@ -13,7 +13,7 @@ H = [0.25, 0.5, 0.125]
 
 C02_QUICK = ["q_rad_free", "q_cyl_free", "q_cylp_free"]
 C02_THOROUGH = C02_QUICK + ["t_rad_free", "t_cyl_free", "t_cylp_free", "t_cyl_free2", "t_cylp_free2", "t_cylp_free3"]
-C01_QUICK = ["q_rad_ren", "q_cyl_ren", "q_cylp_ren"]
+C01_QUICK = ["q_rad_ren", "q_cyl_ren", "q_cylp_ren", "q_cylp_ren9"]
 C01_THOROUGH = C01_QUICK + ["t_cyl_ren", "t_cylp_ren"]
 
 
